@@ -56,8 +56,10 @@ def is_occupied_rule(ctx: Ctx, rule: str) -> None:
         texts.append(f"{norm.show(prem)[:80]} -> {val}")
         e = ast.parse(val, mode="eval").body if kind == "return" and val else None
         thr = None
-        if isinstance(e, ast.Call) and ast.unparse(e.func) == "self.is_started" and len(e.args) == 2 and ast.unparse(e.args[0]) == "worker":
-            t = e.args[1]
+        # is_started(worker, <threshold>) with the threshold passed positionally or by its name
+        eargs = list(e.args) + [k.value for k in e.keywords if k.arg == "threshold"] if isinstance(e, ast.Call) else []
+        if isinstance(e, ast.Call) and ast.unparse(e.func) == "self.is_started" and len(eargs) == 2 and len(e.keywords) <= 1 and ast.unparse(eargs[0]) == "worker":
+            t = eargs[1]
             if isinstance(t, ast.Call) and ast.unparse(t.func) == "max" and len(t.args) == 2 and any(isinstance(a, ast.Constant) and a.value == 1 for a in t.args):
                 thr = next(a for a in t.args if not (isinstance(a, ast.Constant) and a.value == 1))
         # the two parameter reads as they appear after substitution of locals (any default; the agreement of the defaults is rule C04.13)
